@@ -126,8 +126,9 @@ def execute(stim):
         def init_regular(self):
             self.set_output(0)
 
-        def _event_put(self, *, value=None, **data):
-            st['got'] = dict(data, value=value)
+        def _event_put(self, **data):
+            st['got'] = dict(data)
+            value = data.get('value')
             if getattr(self, 'hfault', None) is not None and value == 666:
                 raise fire('handler', self.hfault, True)
             self.set_output(value)
@@ -163,9 +164,9 @@ def execute(stim):
         def init_regular(self):
             self.set_output(0)
 
-        def _event_put(self, *, value=None, **data):
-            st['got'] = dict(data, value=value)
-            self.set_output(value)
+        def _event_put(self, **data):
+            st['got'] = dict(data)
+            self.set_output(data.get('value'))
             return 'handled'
 
         async def stop_async(self):
@@ -176,12 +177,12 @@ def execute(stim):
         def init_regular(self):
             self.set_output(0)
 
-        def _event_put(self, *, value=None, **data):
+        def _event_put(self, **data):
             try:
-                self.fwd.send(self, value=value)
+                self.fwd.send(self, value=data.get('value'))
             except Exception:
                 pass
-            st['got'] = dict(data, value=value)
+            st['got'] = dict(data)
             return 'handled'
 
     made = {}
@@ -257,6 +258,11 @@ def execute(stim):
                     return 7
                 blk = counting(edzed.InitAsync, b, conf)(
                     name, init_coro=[slow], init_timeout=conf.get('itmo', 8) * TICK, initdef=5)
+            elif k == 'badref':
+                # an input given by a name that no block has: the start fails in its very first step
+                # (the references are resolved before any block is started); nothing announces it
+                rec('fault', e=700 + b, fatal=False, doom=True, site='finalize')
+                blk = edzed.Not(name).connect('no_such_block')
             elif k == 'cb':
                 def fn(x, b=b, fault=fault):
                     if fault == 'eval' and x == conf.get('trigger', 0):
@@ -342,6 +348,8 @@ def execute(stim):
         if src is not None:
             kw['source'] = src
         args = [shape['value']] if 'value' in shape else []
+        if args and shape.get('vkw'):       # the value given by keyword
+            kw['value'] = args.pop()
         ret = None
         try:
             ckw = {'source': shape['csrc']} if 'csrc' in shape else {}
@@ -359,7 +367,9 @@ def execute(stim):
         gs = got.get('source') if got else None
         valok = restok = True
         if got is not None:
-            valok = got.get('value') == shape.get('value')
+            # the item is there iff a value was given - whatever the value (None, 0, False, '' ...)
+            valok = (('value' in got) == ('value' in shape) and got.get('value') == shape.get('value')
+                     and type(got.get('value')) is type(shape.get('value')))
             restok = all(got.get(k) == v for k, v in shape.get('items', {}).items())
         if src is None and 'csrc' in shape:
             src = shape['csrc']         # (the source in effect)
